@@ -40,7 +40,8 @@ nobody's nonce decreases. -/
 structure EvmSpec (evm : Evm) (m : Msg) : Prop where
   gas_le   : ∀ w r g, (evm m w r g).gasLeft ≤ g
   insuff   : ∀ w r g, (evm m w r g).vmerr = .insufficientBalance ↔ (w.get m.sender).balance < (m.f.value : Int)
-  untouched : ∀ w r g, (evm m w r g).vmerr = .insufficientBalance → (evm m w r g).world = w ∧ (evm m w r g).gasLeft = g
+  untouched : ∀ w r g, (evm m w r g).vmerr = .insufficientBalance →
+               (evm m w r g).world = w ∧ (evm m w r g).gasLeft = g ∧ (evm m w r g).refund = r
   nonce    : ∀ w r g, (evm m w r g).vmerr ≠ .insufficientBalance →
                ((evm m w r g).world.get m.sender).nonce =
                  if m.f.to.isSome then (w.get m.sender).nonce else ((w.get m.sender).nonce + 1) % U64
